@@ -1,2 +1,95 @@
-From AV Require Import Base TaskGroup.
-Theorem C09_placeholder : True. Proof. exact I. Qed.
+(* C09 - No task outlives its TaskGroup's join.
+   Model: model/TaskGroup.v - an LTS of aiorpcx.curio.TaskGroup with one joining task (join(),
+   `async with`, or `async with` whose body raised) over abstract members that finish when the
+   environment lets them (so a cancelled member may be arbitrarily slow, end with any outcome,
+   and spawn further members at any time, also while being cancelled), every wait policy, and
+   the joining task cancelled at any instant.  The theorems are over ALL label sequences.
+   Two facts of the model are probed on the running class on every run (gen/Gen_curio.v).
+   Refuted part (known finding F12): when the joining task is cancelled WHILE the finally
+   clause of join() - or cancel_remaining() in __aexit__ - waits for cancelled members, it
+   ends at once with members still running; C09_refuted_* give the witnesses, which the
+   harness replays on the real class. *)
+From AV Require Import Base Gen_curio TaskGroup TaskGroupProofs.
+
+Theorem C09_probe_recancels : join_recancels_late_members = true.
+Proof. reflexivity. Qed.
+Theorem C09_probe_refused : add_refused_after_join = true.
+Proof. reflexivity. Qed.
+
+(* when join / the context-manager exit has finished (set joined) - returning, or re-raising
+   the CancelledError that interrupted its wait for the next member - every task ever placed in
+   the group, daemonic or not, has finished *)
+Theorem C09_join_complete : forall p m ls c e,
+  pc (run p m ls) = JEnded c e true -> joined (run p m ls) = true /\ AllFin (run p m ls).
+Proof. exact join_complete. Qed.
+
+(* a joining task that ends in any way other than a CancelledError has completed the join:
+   normal return, a member failed, the body raised *)
+Theorem C09_not_cancelled_complete : forall p m ls e j,
+  pc (run p m ls) = JEnded false e j ->
+  j = true /\ e = true /\ joined (run p m ls) = true /\ AllFin (run p m ls).
+Proof. exact join_not_cancelled_complete. Qed.
+
+(* whenever joined is set, every member has finished and an addition is refused ... *)
+Theorem C09_joined_closed : forall p m ls, joined (run p m ls) = true ->
+  AllFin (run p m ls) /\ forall t d st, add_task (run p m ls) t d st = (run p m ls, false).
+Proof. exact joined_closed. Qed.
+
+(* ... and this stays so whatever happens afterwards: the set of members never changes again *)
+Theorem C09_no_add_after_join : forall p m ls ls', joined (run p m ls) = true ->
+  joined (run p m (ls ++ ls')) = true /\ keys (run p m (ls ++ ls')) = keys (run p m ls).
+Proof. exact no_add_after_join. Qed.
+
+(* the invariant behind them, for every reachable state: every unfinished member is tracked in
+   _pending or daemons, so the finally clause of join() cannot miss one *)
+Theorem C09_unfinished_are_tracked : forall p m ls t mem,
+  get t (members (run p m ls)) = Some mem -> is_fin mem = false ->
+  In t (pending (run p m ls)) \/ In t (daemons (run p m ls)).
+Proof. intros p m ls. exact (proj1 (proj1 (reachable_good p m ls))). Qed.
+
+(* REFUTED (F12): the joining task cancelled while join()'s finally waits for a slow member *)
+Definition f12_join : list label :=
+  [LSpawn 1 false None; LSpawn 2 false None; LStart; LRun HJoiner []; LFinish 2 Exc;
+   LRun (HCb (OnDone 2)) []; LRun HJoiner [1]; LCancelJoiner; LRun HJoiner []]%N.
+Theorem C09_refuted_cancel_during_finally :
+  pc (run PAll MJoin f12_join) = JEnded true true false /\ ~ AllFin (run PAll MJoin f12_join).
+Proof.
+  split; [vm_compute; reflexivity|]. intros H.
+  specialize (H 1%N {| m_daemon := false; m_status := RunC; m_cbs := [OnDone 1; Pop 1]%N |} eq_refl). discriminate.
+Qed.
+(* ... and while cancel_remaining() in __aexit__ does *)
+Definition f12_aexit : list label :=
+  [LSpawn 1 false None; LStart; LRun HJoiner [1]; LCancelJoiner; LRun HJoiner []]%N.
+Theorem C09_refuted_cancel_during_cancel_remaining :
+  pc (run PAll MAexitExc f12_aexit) = JEnded true false false /\ ~ AllFin (run PAll MAexitExc f12_aexit).
+Proof.
+  split; [vm_compute; reflexivity|]. intros H.
+  specialize (H 1%N {| m_daemon := false; m_status := RunC; m_cbs := [OnDone 1; Pop 1]%N |} eq_refl). discriminate.
+Qed.
+
+(* non-vacuity: a join that completes over a member and a daemon; one that waits for a member
+   spawned while the others were being cancelled (the F11 scenario) *)
+Example C09_ex_complete :
+  let g := run PAll MAexit [LSpawn 1 false None; LSpawn 2 true None; LStart; LRun HJoiner []; LFinish 1 RetVal;
+                            LRun (HCb (OnDone 1)) []; LRun HJoiner [2]; LFinish 2 Canc; LRun (HCb (Pop 2)) [];
+                            LRun HJoiner []]%N in
+  pc g = JEnded false true true /\ keys g = [1; 2]%N /\ joined g = true.
+Proof. vm_compute. repeat split. Qed.
+Example C09_ex_late_member :
+  let ls := [LSpawn 1 false None; LSpawn 2 false None; LStart; LRun HJoiner []; LFinish 2 Exc;
+             LRun (HCb (OnDone 2)) []; LRun HJoiner [1]; LSpawn 7 false None; LFinish 1 Canc;
+             LRun (HCb (OnDone 1)) []; LRun (HCb (Pop 1)) []; LRun HJoiner [7]]%N in
+  pc (run PAll MJoin ls) = JCancelAll /\ status (run PAll MJoin ls) 7%N = Some RunC /\
+  pc (run PAll MJoin (ls ++ [LFinish 7 Canc; LRun (HCb (OnDone 7)) []; LRun (HCb (Pop 7)) []; LRun HJoiner []]%N))
+    = JEnded false true true.
+Proof. vm_compute. repeat split. Qed.
+
+Print Assumptions C09_probe_recancels.
+Print Assumptions C09_probe_refused.
+Print Assumptions C09_join_complete.
+Print Assumptions C09_not_cancelled_complete.
+Print Assumptions C09_joined_closed.
+Print Assumptions C09_no_add_after_join.
+Print Assumptions C09_unfinished_are_tracked.
+Print Assumptions C09_refuted_cancel_during_finally.
+Print Assumptions C09_refuted_cancel_during_cancel_remaining.
